@@ -1202,7 +1202,7 @@ def pretty_bracketable_iterable(value, ctx, trailing_comment=None):
             return pretty_namedtuple(value, ctx, trailing_comment=trailing_comment)
 
     is_native_type = constructor in (tuple, list, set)
-    if len(value) > ctx.max_seq_len:
+    if ctx.max_seq_len is not None and len(value) > ctx.max_seq_len:
         truncation_comment = '...and {} more elements'.format(
             len(value) - ctx.max_seq_len
         )
@@ -1337,7 +1337,7 @@ def pretty_dict(d, ctx, trailing_comment=None):
             hug_sole_arg=True
         )
 
-    if len(d) > ctx.max_seq_len:
+    if ctx.max_seq_len is not None and len(d) > ctx.max_seq_len:
         count_truncated = len(d) - ctx.max_seq_len
         truncation_comment = '...and {} more elements'.format(
             count_truncated
